@@ -1,10 +1,10 @@
 package main
 
 import (
-	"sort"
 	"go/ast"
 	"go/token"
 	"go/types"
+	"sort"
 	"strings"
 )
 
@@ -610,7 +610,6 @@ func isTableVar(f *Func, e ast.Expr) bool {
 	st, ok := sl.Elem().Underlying().(*types.Struct)
 	return ok && st.NumFields() == 2
 }
-
 
 // ruleErrorDiscipline: in the named functions (Func.Name() of the declared function; literals inside are included when
 // lits is set) every call whose callee returns an error binds it, tests it, and every path behind the failure returns an
